@@ -604,7 +604,7 @@ def file_byte_tags(chars, enc):
     if fam == '8bit':
         bs = set()
         for ch in chars:
-            bs.update(ch.encode(enc))
+            bs.update(ch.encode(enc, 'ignore'))   # (a library that altered the text may make other text encodable)
         if 0x85 in bs:
             tags.append('8bit:85')
         if 0xa0 in bs:
